@@ -49,7 +49,8 @@ def _cases(draw, n_big=10):
          "evals": draw(gen.eval_time_sets(3)),
          "sigma": list(draw(st.permutations(list(range(n))))),
          "reorder": draw(st.sampled_from([True, True, False])),
-         "dark": None, "shots": 1500, "seed": draw(st.integers(0, 2**20))}
+         "dark": None, "shots": 1500, "seed": draw(st.integers(0, 2**20)),
+         "with_bitstrings": draw(st.sampled_from([True, True, False])), "suffix": draw(st.sampled_from([None, None, "a"]))}
     if regime == "quasi_free":
         npairs = n * (n - 1) // 2
         c["pattern"] = draw(st.lists(st.sampled_from([0.0, 0.0, 1.0, 0.3, 0.05, 2.0]), min_size=npairs, max_size=npairs))
@@ -78,8 +79,11 @@ def _run(case, seqc, reorder, psi0, dark_ids):
     ids = list(seq.register.qubit_ids)
     n = len(ids)
     ev = case["evals"]
-    obs = [pb.Occupation(evaluation_times=ev), pb.CorrelationMatrix(evaluation_times=ev), pb.Energy(evaluation_times=ev),
-           pb.BitStrings(evaluation_times=[1.0], num_shots=case["shots"])]
+    sfx = case.get("suffix")
+    obs = [pb.Occupation(evaluation_times=ev, tag_suffix=sfx), pb.CorrelationMatrix(evaluation_times=ev, tag_suffix=sfx),
+           pb.Energy(evaluation_times=ev)]
+    if case.get("with_bitstrings", True):
+        obs.append(pb.BitStrings(evaluation_times=[1.0], num_shots=case["shots"], tag_suffix=sfx))
     if n <= 5:  # emu-mps squares the MPO for these: minutes per evaluation beyond ~6 atoms with a dense pattern
         obs += [pb.EnergySecondMoment(evaluation_times=ev), pb.EnergyVariance(evaluation_times=ev)]
     kw = dict(dt=case["dt"], observables=obs, precision=case["precision"], optimize_qubit_ordering=reorder)
@@ -185,6 +189,11 @@ def check_case(case) -> Result:
     if dark:
         r.label("dark_atoms")
 
+    sfx = ("_" + case["suffix"]) if case.get("suffix") else ""
+    if sfx:
+        r.label("tag_suffix")
+    r.label("with_bitstrings" if case.get("with_bitstrings", True) else "no_bitstrings")
+
     def cmp(tag, transform, scale=1.0):
         a, b = getattr(resA, tag), getattr(resB, tag)
         ta, tb = resA.get_result_times(tag), resB.get_result_times(tag)
@@ -201,17 +210,19 @@ def check_case(case) -> Result:
                        f"n={n} regime={regime} reorder={case['reorder']} sigma={sigma} dark={sorted(dark)}")
                 return
 
-    cmp("occupation", lambda y: y[mapB])
-    cmp("correlation_matrix", lambda y: y[np.ix_(mapB, mapB)])
+    cmp("occupation" + sfx, lambda y: y[mapB])
+    cmp("correlation_matrix" + sfx, lambda y: y[np.ix_(mapB, mapB)])
     # energy scale: 1 + largest drive
     cmp("energy", lambda y: y, scale=1.0 + 20.0 * n)
     if n <= 5:
         cmp("energy_second_moment", lambda y: y, scale=(1.0 + 20.0 * n) ** 2)
         cmp("energy_variance", lambda y: y, scale=(1.0 + 20.0 * n) ** 2)
     # bitstrings: position i <-> atom i
-    occ_final = e2e.to_np(resA.occupation[-1]) if abs(resA.get_result_times("occupation")[-1] - 1.0) < 1e-9 else None
+    occ_final = e2e.to_np(getattr(resA, "occupation" + sfx)[-1]) if abs(resA.get_result_times("occupation" + sfx)[-1] - 1.0) < 1e-9 else None
     for name, res, idl in (("base", resA, ids), ("variant", resB, idsB)):
-        bs = res.bitstrings[-1]
+        if not case.get("with_bitstrings", True):
+            break
+        bs = getattr(res, "bitstrings" + sfx)[-1]
         tot = sum(bs.values())
         if tot != case["shots"]:
             r.fail("bitstring_total:" + name, f"{tot} != {case['shots']}")
